@@ -5,7 +5,7 @@
 EXTENDS LogConc, TLC
 
 CONSTANTS MaxApp, MaxTrn, MaxCln, MaxHW, MaxEp, MaxImg, MaxRd, Keys, CapSet, OccSet, CompactSet, MsgsSet,
-          MaxBatch, TrackLast, UseReaders
+          MaxBatch, TrackLast, UseReaders, UseSet, UseReopen
 VARIABLES last, nApp, nTrn, nCln, nImg, nRd, nId, mep, pre
 mcvars == <<vars, last, nApp, nTrn, nCln, nImg, nRd, nId, mep, pre>>
 
@@ -28,7 +28,9 @@ Batches ==
   UNION {[1..k -> [ep : {mep, mep + 1} \cap 1..MaxEp, key : Keys,
                    exp : IF cfg.occ THEN {-1} \cup 0..(Newest + 2) ELSE {-1}]] : k \in n}
 EpOK(b) == \A i \in 1..Len(b) - 1 : b[i].ep <= b[i + 1].ep
-WithIds(b) == [i \in 1..Len(b) |-> [ep |-> b[i].ep, key |-> b[i].key, exp |-> b[i].exp, id |-> nId + i]]
+WithIds(b) == [i \in 1..Len(b) |-> [off |-> -1, ep |-> b[i].ep, key |-> b[i].key, exp |-> b[i].exp, id |-> nId + i]]
+\* a replication response: consecutive offsets from the follower's log end (the caller checks that)
+SetIds(b) == [i \in 1..Len(b) |-> [off |-> Newest + i, ep |-> b[i].ep, key |-> b[i].key, exp |-> -1, id |-> nId + i]]
 
 Others(V) == UNCHANGED V
 Cnt == <<nApp, nTrn, nCln, nImg, nRd, nId, mep>>
@@ -40,6 +42,17 @@ MCAppBegin ==
        /\ nApp' = nApp + 1 /\ nId' = nId + Len(b) /\ mep' = b[Len(b)].ep
        /\ Step([a |-> "AppBegin", batch |-> b])
   /\ UNCHANGED <<nTrn, nCln, nImg, nRd, pre>>
+MCAppSetBegin ==
+  /\ UseSet /\ nApp < MaxApp
+  /\ \E b0 \in Batches : EpOK(b0) /\ b0[1].exp = -1 /\ LET b == SetIds(b0) IN
+       /\ G_AppSetBegin(b) /\ Apply(N_AppSetBegin(b))
+       /\ nApp' = nApp + 1 /\ nId' = nId + Len(b) /\ mep' = b[Len(b)].ep
+       /\ Step([a |-> "AppSetBegin", batch |-> b])
+  /\ pre' = pre
+  /\ UNCHANGED <<nTrn, nCln, nImg, nRd>>
+MCReopen ==
+  /\ UseReopen /\ nImg < MaxImg /\ obs.a # "Reopen" /\ G_Reopen /\ Apply(N_Reopen)
+  /\ nImg' = nImg + 1 /\ UNCHANGED <<nApp, nTrn, nCln, nRd, nId, mep, pre>> /\ Step([a |-> "Reopen"])
 MCAppStep ==
   /\ \/ G_AppChk /\ Apply(N_AppChk)
      \/ G_AppPick /\ Apply(N_AppPick)
@@ -87,7 +100,7 @@ MCRdNext(r) ==
   /\ Step([a |-> "RdNext", r |-> r])
 
 MCNext ==
-  \/ MCAppBegin \/ MCAppStep
+  \/ MCAppBegin \/ MCAppStep \/ MCAppSetBegin \/ MCReopen
   \/ \E o \in 0..(Newest + 1) : MCTrnBegin(o)
   \/ MCTrnStep
   \/ MCClnBegin \/ MCClnStep
@@ -107,6 +120,8 @@ SO_Trn == /\ (last'.a = "TrnBegin") => P_TruncateStep(trn'.o) \/ trn'.pc = "idle
           /\ (trn.pc # "idle" /\ trn' # trn) => P_TruncateStep(trn.o)
 SO_ClnSwap == (cln.pc # "idle" /\ cln'.pc = "idle") => P_CleanSwap(cln.b, segs[Last(cln.snap)].base)
 SO_ClnStep == (cln.pc # "idle" /\ cln' # cln /\ cln'.pc # "idle") => P_CleanStep
+SO_Reopen == Ret("Reopen") => P_Reopen
+S_Reopen == [][SO_Reopen]_mcvars
 SO_Img == Ret("CrashImage") => P_CrashImage(cln.b)
 SO_Rd == \A r \in Readers : (Ret("RdNext") /\ rd'[r] # rd[r]) => P_RdNext(r)
 StepOK == SO_App /\ SO_Trn /\ SO_ClnSwap /\ SO_ClnStep /\ SO_Img /\ SO_Rd
